@@ -39,6 +39,7 @@ type Contract struct {
 	Invs     []*Clause
 	Decs     []*Clause
 	Prefers  []*Clause
+	Crash    []*Clause
 	Lets     map[string]*Let
 	LetOrder []string
 	Modifies []string
@@ -126,7 +127,7 @@ func newSpecs() *Specs {
 
 var clauseKW = map[string]bool{
 	"requires": true, "ensures": true, "modifies": true, "let": true, "invariant": true,
-	"decreases": true, "prefer": true, "assumed": true, "returns": true, "refines": true, "verify": true, "opt": true, "loopmodifies": true,
+	"decreases": true, "prefer": true, "crash_invariant": true, "assumed": true, "returns": true, "refines": true, "verify": true, "opt": true, "loopmodifies": true,
 }
 
 type rawLine struct {
@@ -263,10 +264,11 @@ func (sp *Specs) parseLines(lines []rawLine, pkgPath string) error {
 		case "const":
 			// const Name Sort = smtliteral
 			f := strings.Fields(rest)
-			if len(f) != 4 || f[2] != "=" {
+			eqi := strings.Index(rest, "=")
+			if len(f) < 4 || f[2] != "=" || eqi < 0 {
 				return fmt.Errorf("%s: const Name Sort = value", where)
 			}
-			sp.Consts[f[0]] = &SpecConst{f[0], f[1], f[3]}
+			sp.Consts[f[0]] = &SpecConst{f[0], f[1], strings.TrimSpace(rest[eqi+1:])}
 		case "sentinel":
 			sp.Sentinels = append(sp.Sentinels, sp.qualify(rest, pkgPath))
 		case "noeffect":
@@ -599,7 +601,7 @@ func (sp *Specs) parseClause(c *Contract, it rawLine) error {
 		}
 		c.Lets[name] = &Let{name, e}
 		c.LetOrder = append(c.LetOrder, name)
-	case "requires", "ensures", "invariant", "decreases", "prefer":
+	case "requires", "ensures", "invariant", "decreases", "prefer", "crash_invariant":
 		e, err := parseExpr(body)
 		if err != nil {
 			return fmt.Errorf("%s: %v", where, err)
@@ -616,6 +618,8 @@ func (sp *Specs) parseClause(c *Contract, it rawLine) error {
 			c.Decs = append(c.Decs, cl)
 		case "prefer":
 			c.Prefers = append(c.Prefers, cl)
+		case "crash_invariant":
+			c.Crash = append(c.Crash, cl)
 		}
 	default:
 		return fmt.Errorf("%s: unknown clause %q", where, kw)
